@@ -93,10 +93,27 @@ def _chunks(xs, n):
     return [xs[i:i + k] for i in range(0, len(xs), k)]
 
 
+ADV_MAGIC = b"\xffADV"
+
+
+def adv_frame(seconds):
+    """A pseudo-frame: to the implementation and to the model it is an 8-byte frame (shorter than an Ethernet header, so
+    both stay silent and no state changes); the runner additionally tells the hooked driver to advance every clock the
+    process reads by that many seconds before the frame is handed over. A history with such frames is the same history
+    with time passing between its frames; the model has no notion of elapsed time, which is the claim being checked."""
+    return ADV_MAGIC + int(seconds).to_bytes(4, "big")
+
+
+def adv_seconds(f):
+    return int.from_bytes(f[4:8], "big") if len(f) == 8 and f[:4] == ADV_MAGIC else None
+
+
 def run_impl(scripts, driver=None):
     """-> list (per script) of list (per frame) of Outcome."""
     driver = driver or DRIVER_DEV
     env = dict(os.environ, MASSCANNED_VERIF="1")
+    if os.path.exists(CLOCKSHIM):
+        env["LD_PRELOAD"] = CLOCKSHIM
 
     def work(chunk):
         lines = []
@@ -104,6 +121,8 @@ def run_impl(scripts, driver=None):
             lines.append(s.cfg.impl_line())
             lines.append("RESET")
             for f in s.frames:
+                if adv_seconds(f) is not None:
+                    lines.append("ADV %d" % adv_seconds(f))
                 lines.append("F " + f.hex())
         out = _run_proc([driver], "\n".join(lines) + "\n", env)
         res = []
